@@ -11,6 +11,7 @@ if [ $# -ge 1 ]; then git -C /repo archive "$1" | tar -x -C "$tmp"; else rsync -
 cp "$here/updog_replay_test.go" "$tmp/"
 cp "$here/queryparser_replay_test.go" "$tmp/internal/queryparser/"
 cp "$here/driver_replay_test.go" "$tmp/driver/"
+cp "$here/cmd_replay_test.go" "$tmp/cmd/updog/"
 # defect 14's repair changed ToQuery's signature; pick the variant that compiles
 if grep -q 'func ToQuery(pbq \*proto.Query) (\*updog.Query, error)' "$tmp/internal/convert/convert.go"; then
   cp "$here/convert_replay_test.go" "$tmp/internal/convert/"
